@@ -5,6 +5,7 @@ import TLX.Props.ExportFaults
 import TLX.Lemmas.CarrierMap
 import TLX.Lemmas.Capstone
 import TLX.Props.C03
+import TLX.Props.C02Capstone
 set_option linter.unusedSimpArgs false
 set_option linter.unusedVariables false
 namespace TLX.Props.ExportFaults2
@@ -489,5 +490,55 @@ theorem export_victim_headless_tls (c : Pipeline.Conn) (kl : List Keylog.Key)
   rfl
 
 end HeadlessConv
+
+-- ====================================================================== 3. QUIC: lost datagrams in the 1-RTT phase
+section QuicLoss
+open TLX.Quic TLX.Quic.Session TLX.QuicPipeline TLX.Props.C02Capstone TLX.Props.C02Session TLX.Spec.QuicSender TLX.Cipher
+
+variable (maskFn : Dissect.MaskFn) (H : Crypto.Prims) (Pc : Cipher.Prims) (info : Nat → Pipeline.Info)
+
+theorem expectedOut_sublist (c : QConn) {ds' ds : List Spec.QuicConnection.Dg1} (h : ds'.Sublist ds) :
+    (expectedOut c ds').Sublist (expectedOut c ds) := by
+  unfold expectedOut
+  exact (h.filter _).map _
+
+/-- **C03 / C02, QUIC victim, datagrams lost in the established 1-RTT phase (`delete`, a missing stretch).** An
+    established connection `c` (`Est`: both 1-RTT key chains installed) and a conformant history `items` of 1-RTT datagrams
+    (`Send1`, distinct capture times per direction). `items'`: what is left when ANY of the datagrams are missing from the
+    capture. The one condition (`hsend'`): the thinned history is again a history the sender's rules allow from the
+    session's point of view — for every remaining packet, its truncated packet number still decodes against the largest
+    number CAPTURED so far (`PnLenOk` = the window of RFC 9000 A.3, exactly the hypotheses of `C16.pn_decode_window`), its
+    key phase is at most one generation ahead of what was captured, and its DCID was issued in a captured
+    NEW_CONNECTION_ID frame. Then the session exports exactly the remaining datagrams that carry STREAM data — each
+    unchanged (payload, time, addressing), in order: a SUBSEQUENCE of what it exports from the complete capture. -/
+theorem quic_loss_subsequence (kl : List Keylog.Key) (L : SealLaws Pc) (sel : SuiteSel) (v : Quic.Session.Version)
+    (k0 : AppKeys) (hpC hpS : Bytes) (chacha : Bool) (hk : KeysWf (params H Pc kl) sel v k0)
+    (items items' : List (List Keylog.Key × MainLoop.Pkt × Spec.QuicConnection.Dg1)) (c : QConn) (gc gs lc ls : Nat) (cc sc : List Bytes)
+    (hr : c.raised = none)
+    (hest : Est H Pc kl sel v k0 hpC hpS chacha c.st gc gs lc ls cc sc)
+    (hprev : ∀ o ∈ c.st.out, UdpOut.exported false (frameOf o) = none)
+    (hcar : ∀ x ∈ items, Carries info c (wireOf H Pc L sel v k0) x.2.1 x.2.2)
+    (hsend : Send1 maskFn H Pc L sel v k0 hpC hpS chacha gc gs lc ls cc sc (items.map (·.2.2)))
+    (htimes : ((items.map (·.2.2)).map fun d => (d.x.ts, d.x.srv)).Pairwise (· ≠ ·))
+    (hsub : items'.Sublist items)
+    (hsend' : Send1 maskFn H Pc L sel v k0 hpC hpS chacha gc gs lc ls cc sc (items'.map (·.2.2))) :
+    let QM := quicMachine maskFn H Pc info
+    (feedAll QM c items').raised = none ∧
+    QM.out false (feedAll QM c items') = expectedOut c (items'.map (·.2.2)) ∧
+    (QM.out false (feedAll QM c items')).Sublist (QM.out false (feedAll QM c items)) := by
+  intro QM
+  have hsubd : (items'.map (·.2.2)).Sublist (items.map (·.2.2)) := hsub.map _
+  have htimes' : ((items'.map (·.2.2)).map fun d => (d.x.ts, d.x.srv)).Pairwise (· ≠ ·) :=
+    htimes.sublist (hsubd.map _)
+  have full := quic_one_rtt_connection_exact maskFn H Pc info kl L sel v k0 hpC hpS chacha hk items c gc gs lc ls cc sc
+    hr hest hprev hcar hsend htimes
+  have thin := quic_one_rtt_connection_exact maskFn H Pc info kl L sel v k0 hpC hpS chacha hk items' c gc gs lc ls cc sc
+    hr hest hprev (fun x hx => hcar x (hsub.subset hx)) hsend' htimes'
+  refine ⟨thin.1, thin.2, ?_⟩
+  show (QM.out false (feedAll QM c items')).Sublist (QM.out false (feedAll QM c items))
+  rw [thin.2, full.2]
+  exact expectedOut_sublist c hsubd
+
+end QuicLoss
 
 end TLX.Props.ExportFaults2
